@@ -97,7 +97,7 @@ def search_units(ctx, fd, rebound):
     if relerr(sim.G, 1.0) > 1e-14:
         fd.fail("units:G=1", {"G": sim.G}, "G(au,yr2pi,msun) != 1")
     # conversions of particle data: round trip, transitivity, SI value, orbital period
-    n = ctx.scale(150, 3000)
+    n = ctx.scale(300, 4000)
     members = ["m", "x", "y", "z", "r", "vx", "vy", "vz", "ax", "ay", "az"]
     for k in range(n):
         u = [(rng.choice(L), rng.choice(T), rng.choice(M)) for _ in range(3)]
@@ -144,7 +144,7 @@ def search_units(ctx, fd, rebound):
             fd.fail("units:transitive", {"units": u, "particle": vals, "via": a, "direct": b, "wrong_members": bad},
                     "unit conversion is not transitive to rounding error")
     # orbital period does not depend on the unit system
-    for k in range(ctx.scale(60, 1000)):
+    for k in range(ctx.scale(150, 2000)):
         u0 = (rng.choice(L), rng.choice(T), rng.choice(M)); u1 = (rng.choice(L), rng.choice(T), rng.choice(M))
         Msi = float(REF_M["msun"]) * rng.uniform(0.1, 3); asi = float(AU) * 10 ** rng.uniform(-1, 1.5); e = rng.uniform(0, 0.8)
         s = rebound.Simulation(); s.units = u0
@@ -217,7 +217,7 @@ def search_rot(ctx, fd, rebound):
     def vdiff(a, b):
         return max(abs(x - y) for x, y in zip(a, b))
 
-    n = ctx.scale(1500, 30000)
+    n = ctx.scale(6000, 60000)
     for k in range(n):
         ctx.evaluations += 1
         kind = k % 6
@@ -297,7 +297,14 @@ def search_rot(ctx, fd, rebound):
                 continue
             q = R.to_new_axes(newz=z, newx=x)
             desc = {"constructor": "to_new_axes", "newz": z, "newx": x}
-            if vdiff(app(q, zh), [0.0, 0.0, 1.0]) > 1e-13 / nrm(xp) or vdiff(app(q, unit(xp)), [1.0, 0.0, 0.0]) > 1e-12 / nrm(xp):
+            # conditioning of the two-stage construction: the second stage is from_to(q1*newx_perp, x); its axis is determined only up to
+            # eps/|q1*newx_perp_hat + x| (see the directed probe below for the degenerate end of this)
+            x1 = app(R.from_to(z, [0.0, 0.0, 1.0]), unit(xp))
+            d2 = max(nrm([x1[0] + 1.0, x1[1], x1[2]]), 1e-300)
+            if d2 < 1e-6:
+                continue
+            tolz = 1e-13 / nrm(xp) / min(1.0, d2)
+            if vdiff(app(q, zh), [0.0, 0.0, 1.0]) > tolz or vdiff(app(q, unit(xp)), [1.0, 0.0, 0.0]) > 10 * tolz:
                 fd.fail("to_new_axes:maps", dict(desc, q=ql(q), z_image=app(q, zh), x_image=app(q, unit(xp))),
                         "Rotation.to_new_axes does not take newz to z and the perpendicular part of newx to x")
         else:
@@ -341,6 +348,17 @@ def search_rot(ctx, fd, rebound):
             fd.fail("compose", dict(desc, q=qv, p=ql(p), v=a), "(p*q)*v differs from p*(q*v)")
         if vdiff(app(q.inverse(), ra), a) > 1e-13 * na:
             fd.fail("inverse:rotate", dict(desc, q=qv, v=a), "q.inverse()*(q*v) differs from v")
+    # ---- directed probes of to_new_axes (orthonormal frame -> frame is a perfectly conditioned problem)
+    for z, x in (([0.0, 0.0, -0.30497348956448517], [3.0290501012922735, 0.0, -194.77077542992063]),
+                 ([0.0, 0.0, -1.0], [1.0, 0.0, 0.0]), ([0.0, 0.0, 2.0], [1.0, 0.0, 1.0]), ([0.0, 0.0, 1.0], [-1.0, 0.0, 0.0]),
+                 ([0.0, 0.0, 1.0], [-1.0, 1e-15, 0.0]), ([1.0, 0.0, 0.0], [0.0, 0.0, -1.0]), ([1.0, 2.0, 2.0], [2.0, -2.0, 1.0])):
+        ctx.evaluations += 1
+        q = R.to_new_axes(newz=z, newx=x)
+        zh = unit(z); d = sum(a * b for a, b in zip(x, zh)); xp = unit([a - d * b for a, b in zip(x, zh)])
+        ez, ex = vdiff(app(q, zh), [0.0, 0.0, 1.0]), vdiff(app(q, xp), [1.0, 0.0, 0.0])
+        if not (ez <= 1e-9 and ex <= 1e-9):
+            fd.fail("to_new_axes:unstable-antiparallel-x", {"newz": z, "newx": x, "q": ql(q), "z_image": app(q, zh), "x_image": app(q, xp)},
+                    "Rotation.to_new_axes does not take newz to z / newx to x (second stage nearly antiparallel to x)")
     # ---- rotating a simulation: relative geometry, energy, |L|
     for k in range(ctx.scale(60, 1000)):
         ctx.evaluations += 1
@@ -398,7 +416,7 @@ def search_frames(ctx, fd, rebound):
     def snap(sim):
         return [[getattr(sim.particles[i], c) for c in ["m"] + COMPS] for i in range(sim.N)]
 
-    for k in range(ctx.scale(150, 3000)):
+    for k in range(ctx.scale(600, 6000)):
         ctx.evaluations += 1
         sim = rebound.Simulation()
         n = rng.randint(1, 6)
@@ -518,9 +536,13 @@ def search_frames(ctx, fd, rebound):
 
 
 def search(ctx, rebound, clib, Rot, V3):
+    import traceback
     fd = Finder(ctx)
-    search_units(ctx, fd, rebound)
-    search_rot(ctx, fd, rebound)
-    search_frames(ctx, fd, rebound)
+    for name, fn in (("units", search_units), ("rotations", search_rot), ("frames", search_frames)):
+        try:
+            fn(ctx, fd, rebound)
+        except Exception as e:      # the python layer raised on an input the property covers
+            fd.fail("exception:" + name, {"section": name, "error": repr(e), "traceback": traceback.format_exc()[-1500:]},
+                    "the library's python layer raised %r while the %s oracles were exercising it" % (e, name))
     ctx.extra["searcher_distinct_failures"] = sorted(fd.found)
     fd.flush()
